@@ -4,6 +4,8 @@ import (
 	"context"
 	"fmt"
 	"go/ast"
+	"go/printer"
+	"go/token"
 	"reflect"
 	"sort"
 	"strconv"
@@ -193,4 +195,193 @@ func factsMore(ctx *Ctx, b *strings.Builder) {
 		}
 	}
 	fmt.Fprintf(b, "Definition agent_registrations : list (string * string) :=\n  [%s].\n\n", strings.Join(arows, "; "))
+	sitesFacts(ctx, b)
+}
+
+// ---------- panic-capable expressions in the network-facing code ----------
+
+var networkFacingFiles = []string{
+	"jsonrpc2/remote.go", "jsonrpc2/server.go", "jsonrpc2/method.go", "jsonrpc2/borrowed_eth.go", "jsonrpc2/types.go",
+	"jsonrpc2/http.go", "jsonrpc2/codecs.go", "jsonrpc2/pending.go", "jsonrpc2/local.go",
+	"request/node.go", "request/address.go", "request/request.go",
+	"pool/service.go", "pool/nodeuri.go", "pool/payment/service.go", "pool/status/status.go", "pool/balance/perinterval.go",
+	"ethnode/nodeuri.go", "ethnode/rpc.go", "internal/pretty/abbrev.go", "agent/agent.go",
+}
+
+type site struct{ File, Func, Kind, Expr string }
+
+func exprText(fset *token.FileSet, n ast.Node) string {
+	var b strings.Builder
+	printer.Fprint(&b, fset, n)
+	return strings.Join(strings.Fields(b.String()), " ")
+}
+
+// panicSites lists slice expressions, index expressions on non-map-literal operands, unchecked
+// type assertions, explicit panics and makes with a computed size, per function.
+func panicSites(repo string) []site {
+	var out []site
+	for _, file := range networkFacingFiles {
+		fset, f := parseFile(repo, file)
+		// names of variables / fields that hold maps in this file (syntactic): indexing them cannot panic
+		maps := map[string]bool{}
+		isMapExpr := func(e ast.Expr) bool {
+			switch v := e.(type) {
+			case *ast.MapType:
+				return true
+			case *ast.CompositeLit:
+				_, ok := v.Type.(*ast.MapType)
+				return ok
+			case *ast.CallExpr:
+				if id, ok := v.Fun.(*ast.Ident); ok && id.Name == "make" && len(v.Args) > 0 {
+					_, ok := v.Args[0].(*ast.MapType)
+					return ok
+				}
+			}
+			return false
+		}
+		ast.Inspect(f, func(n ast.Node) bool {
+			switch v := n.(type) {
+			case *ast.Field:
+				if isMapExpr(v.Type) {
+					for _, nm := range v.Names {
+						maps[nm.Name] = true
+					}
+				}
+			case *ast.ValueSpec:
+				if v.Type != nil && isMapExpr(v.Type) {
+					for _, nm := range v.Names {
+						maps[nm.Name] = true
+					}
+				}
+				for k, val := range v.Values {
+					if isMapExpr(val) && k < len(v.Names) {
+						maps[v.Names[k].Name] = true
+					}
+				}
+			case *ast.AssignStmt:
+				for k, val := range v.Rhs {
+					if isMapExpr(val) && k < len(v.Lhs) {
+						if id, ok := v.Lhs[k].(*ast.Ident); ok {
+							maps[id.Name] = true
+						}
+					}
+				}
+			}
+			return true
+		})
+		baseName := func(e ast.Expr) string {
+			switch v := e.(type) {
+			case *ast.Ident:
+				return v.Name
+			case *ast.SelectorExpr:
+				return v.Sel.Name
+			}
+			return ""
+		}
+		lenBased := func(e ast.Expr) bool {
+			ok := true
+			ast.Inspect(e, func(n ast.Node) bool {
+				switch v := n.(type) {
+				case *ast.CallExpr:
+					if id, isId := v.Fun.(*ast.Ident); isId && id.Name == "len" {
+						return false // don't look inside len(...)
+					}
+					ok = false
+				case *ast.Ident:
+					ok = false
+				case *ast.BinaryExpr:
+					if v.Op != token.ADD {
+						ok = false
+					}
+				}
+				return ok
+			})
+			return ok
+		}
+		for _, d := range f.Decls {
+			fd, ok := d.(*ast.FuncDecl)
+			if !ok || fd.Body == nil {
+				continue
+			}
+			checked := map[ast.Node]bool{}
+			ast.Inspect(fd.Body, func(n ast.Node) bool {
+				// v, ok := x.(T) and switch x.(type) are checked assertions
+				switch v := n.(type) {
+				case *ast.AssignStmt:
+					if len(v.Lhs) == 2 && len(v.Rhs) == 1 {
+						if ta, ok := v.Rhs[0].(*ast.TypeAssertExpr); ok {
+							checked[ta] = true
+						}
+					}
+				case *ast.ValueSpec:
+					if len(v.Names) == 2 && len(v.Values) == 1 {
+						if ta, ok := v.Values[0].(*ast.TypeAssertExpr); ok {
+							checked[ta] = true
+						}
+					}
+				case *ast.TypeSwitchStmt:
+					ast.Inspect(v.Assign, func(x ast.Node) bool {
+						if ta, ok := x.(*ast.TypeAssertExpr); ok {
+							checked[ta] = true
+						}
+						return true
+					})
+				}
+				return true
+			})
+			fn := fd.Name.Name
+			if typ, _ := recvName(fd); typ != "" {
+				fn = typ + "." + fn
+			}
+			ast.Inspect(fd.Body, func(n ast.Node) bool {
+				switch v := n.(type) {
+				case *ast.SliceExpr:
+					out = append(out, site{file, fn, "slice", exprText(fset, v)})
+				case *ast.IndexExpr:
+					if !maps[baseName(v.X)] {
+						out = append(out, site{file, fn, "index", exprText(fset, v)})
+					}
+				case *ast.TypeAssertExpr:
+					if !checked[v] && v.Type != nil {
+						out = append(out, site{file, fn, "assert", exprText(fset, v)})
+					}
+				case *ast.CallExpr:
+					if id, ok := v.Fun.(*ast.Ident); ok {
+						if id.Name == "panic" {
+							out = append(out, site{file, fn, "panic", exprText(fset, v)})
+						}
+						if id.Name == "make" && len(v.Args) >= 2 {
+							if _, lit := v.Args[len(v.Args)-1].(*ast.BasicLit); !lit && !lenBased(v.Args[len(v.Args)-1]) {
+								out = append(out, site{file, fn, "make", exprText(fset, v)})
+							}
+						}
+					}
+				}
+				return true
+			})
+		}
+	}
+	sort.Slice(out, func(i, j int) bool {
+		a, b := out[i], out[j]
+		if a.File != b.File {
+			return a.File < b.File
+		}
+		if a.Func != b.Func {
+			return a.Func < b.Func
+		}
+		if a.Kind != b.Kind {
+			return a.Kind < b.Kind
+		}
+		return a.Expr < b.Expr
+	})
+	return out
+}
+
+func sitesFacts(ctx *Ctx, b *strings.Builder) {
+	b.WriteString("(* panic-capable expressions in the network-facing functions: (file, function, kind, expression) *)\n")
+	var rows []string
+	for _, s := range panicSites(ctx.Repo) {
+		rows = append(rows, fmt.Sprintf("(%s, %s, %s, %s)", cString(s.File), cString(s.Func), cString(s.Kind), cString(s.Expr)))
+	}
+	fmt.Fprintf(b, "Definition panic_sites : list (string * string * string * string) :=\n  [%s].\n\n", strings.Join(rows, ";\n   "))
 }
